@@ -344,6 +344,8 @@ type inliner struct {
 	encl  *types.Func
 	// anyCandidate: calleeOf also resolves helpers that cannot be hoisted (for go/defer wrapping)
 	anyCandidate bool
+	// needImports: imports (name → path) the expansions made in the current file rely on
+	needImports map[string]string
 }
 
 func (il *inliner) off(p token.Pos) int { return il.tf.Offset(p) }
@@ -463,6 +465,15 @@ func (il *inliner) visibleAt(c *candidate, pos token.Pos) bool {
 	for _, fr := range c.free {
 		_, o := sc.LookupParent(fr.name, pos)
 		if o == fr.obj {
+			continue
+		}
+		// a package the helper's file imports and this file does not (the extraction moved the
+		// only use of "unsafe" away, say): the expansion brings the import along
+		if pn, isPkg := fr.obj.(*types.PkgName); isPkg && o == nil {
+			if il.needImports == nil {
+				il.needImports = map[string]string{}
+			}
+			il.needImports[fr.name] = pn.Imported().Path()
 			continue
 		}
 		p1, ok1 := o.(*types.PkgName)
@@ -1564,7 +1575,22 @@ func inlineRound(pkgs []*packages.Package, dir string, round int, overlay map[st
 				}
 			}
 			if len(il.edits) == 0 {
+				il.needImports = nil
 				continue
+			}
+			if len(il.needImports) > 0 {
+				var names []string
+				for n := range il.needImports {
+					names = append(names, n)
+				}
+				sort.Strings(names)
+				imp := ""
+				for _, n := range names {
+					imp += fmt.Sprintf("; import %s %q", n, il.needImports[n])
+				}
+				// right after the package clause, on the same line (positions below stay as they are)
+				il.edits = append(il.edits, edit{il.off(f.Name.End()), il.off(f.Name.End()), imp})
+				il.needImports = nil
 			}
 			// keep the positions of the following declarations aligned with the file on disk
 			for _, d := range f.Decls {
